@@ -102,10 +102,11 @@ class EnumV:
 
 
 class RefV:
-    __slots__ = ("v", "slot", "loc", "entry")
+    __slots__ = ("v", "slot", "loc", "entry", "frame")
 
-    def __init__(self, v, slot=None, loc=None, entry=None):
+    def __init__(self, v, slot=None, loc=None, entry=None, frame=None):
         self.v = v
+        self.frame = frame # id of the call frame whose local `slot` names (a reference can be handed down several calls)
         self.slot = slot   # name of the caller's local this reference was taken from (for &mut write-back)
         self.loc = loc     # (object id, field index) when the reference points into an object's field (heap store)
         self.entry = entry # (reference to the owning map, key) when the reference points at a map's value (get_mut)
